@@ -15,6 +15,9 @@
 #include "internal/utils.h"
 #ifndef VERIF_REPLAY                       /* (the native replay includes ciffile.c itself) */
 #include "write_context_gen.h"
+#else
+#define FOLD_WINDOW_GEN FOLDING_WINDOW
+#define PREFIX_LENGTH_GEN PREFIX_LENGTH
 #endif                                     /* typedef ... write_context_t, extracted from /repo/src/ciffile.c by the driver on every run */
 #include "../oracles/ref_tokenizer.h"
 #ifndef KLEN
@@ -57,7 +60,7 @@ int __CPROVER_file_local_ciffile_c_write_triple_quoted(void *context, const UCha
 }
 int __CPROVER_file_local_ciffile_c_write_text(void *context, UChar *text, int32_t length, int fold, int prefix) {
     note(4, context, text);
-    V_ASSERT(same_text && pre_text(orig, N, length, fold, prefix, CIF_LINE_LENGTH, WVERSION), "write_text gets the folding / prefixing the value needs");
+    V_ASSERT(same_text && pre_text(orig, N, length, fold, prefix, CIF_LINE_LENGTH, WVERSION, FOLD_WINDOW_GEN), "write_text gets the folding / prefixing the value needs");
     V_ASSERT(allow_text, "a text field is never used where it is not allowed (table keys)");
     if (fold) V_COVER_OPT("folding requested"); if (prefix) V_COVER_OPT("prefixing requested");
     return stub_rc;
